@@ -113,12 +113,16 @@ def _texture(rng, shape, kind, vmax):
                 v += a * math.exp(-sum(((pi - ci) / si) ** 2 for pi, ci, si in zip(p, c, s)) / 2)
             out.append(min(vmax, int(v)))
         return out
-    if kind == "ramp":
+    if kind in ("ramp", "corner"):
         # brightness growing towards one corner / border: pushes the centroid out of the image
+        # ("corner": along EVERY axis at once, steeply: the mask is pushed over the bound of all axes
+        # in the same iteration)
         sgn = [rng.choice([-1, 0, 1]) for _ in shape]
+        if kind == "corner":
+            sgn = [rng.choice([-1, 1]) for _ in shape]
         if not any(sgn):
             sgn[rng.randrange(nd)] = rng.choice([-1, 1])
-        power = rng.choice([1, 2, 3])
+        power = rng.choice([1, 2, 3]) if kind == "ramp" else rng.choice([2, 3, 3])
         base = rng.randint(0, 3)
         out = []
         for p in idx:
@@ -128,7 +132,13 @@ def _texture(rng, shape, kind, vmax):
                     u = pi / max(1, sh - 1)
                     t += (u if s > 0 else 1 - u)
             t /= sum(1 for s in sgn if s)
-            out.append(min(vmax, base + int(vmax * t ** power)))
+            if kind == "corner":
+                # exponential towards the corner: the relative slope (and with it the centroid's offset)
+                # does not depend on the size of the image
+                dist = sum((sh - 1 - pi) if s_ > 0 else pi for pi, s_, sh in zip(p, sgn, shape))
+                out.append(min(vmax, base + int(vmax * 2.0 ** (-dist / float(power - 1)))))
+            else:
+                out.append(min(vmax, base + int(vmax * t ** power)))
         return out
     if kind == "spikes":
         out = [0] * n
@@ -170,7 +180,7 @@ def gen_case(rng, i, thorough=False):
     if rng.random() < 0.3:
         vmax = rng.choice([1, 2, 5, 10])
     kind = rng.choice(["palette", "palette", "palette", "blobs", "blobs", "ramp", "ramp",
-                       "spikes", "plateau", "flat"])
+                       "spikes", "plateau", "flat", "corner"])
     if tie:
         kind, v = "tie", rng.randint(1, vmax)
         dens = rng.choice([0.15, 0.3, 0.5])
@@ -190,7 +200,20 @@ def gen_case(rng, i, thorough=False):
     arr = np.array(img, dtype=np.int64).reshape(shape)
     mask = exact_mask(radius)
     starts = []
-    for _ in range(rng.randint(1, 6)):
+    if kind == "corner":
+        # start a few pixels (diagonally) from the last admissible centre next to the bright corner
+        max_iter = rng.choice([3, 10, 10])
+        top = np.unravel_index(int(np.argmax(arr)), arr.shape)
+        for _ in range(rng.randint(1, 3)):
+            d = rng.randint(1, 3)
+            c = []
+            for r, s_, t_ in zip(radius, shape, top):
+                lo, hi = r, s_ - 1 - r
+                c.append(min(hi, lo + d) if t_ < s_ / 2 else max(lo, hi - d))
+            rect = tuple(slice(ci - r, ci + r + 1) for ci, r in zip(c, radius))
+            if int((arr[rect] * mask).sum()) > 0 and c not in starts:
+                starts.append(c)
+    for _ in range(rng.randint(1, 6) if not starts else 1):
         for _try in range(20):
             c = []
             for r, s in zip(radius, shape):
